@@ -87,6 +87,45 @@ def batch_failure(seed, method, dt, upsample):
     return None
 
 
+FRESH_SRC = """
+import json, sys, numpy as np
+import corrlib as cl
+a = json.loads(sys.argv[1])
+r = np.random.default_rng(a['seed'])
+pattern = cl.pattern_from_desc(a['desc'])
+frame = r.poisson(4.0, size=(a['h'], a['w'])).astype(np.float32)
+o = cl.run_full(pattern, frame, a['peaks'], upsample=a['ups'])
+print('RESULT ' + json.dumps([np.asarray(x, dtype=float).tolist() for x in o]))
+"""
+
+
+def fresh_process_failure(desc, h, k, ups, seed):
+    """the result for a frame of width 2k+1 in THIS process -- which first processes a frame of width 2k (same half-spectrum width) -- against
+    the result a fresh interpreter gives for that frame alone: a peak's result depends on the frame, the pattern and its position only"""
+    import subprocess
+    import sys
+    r = np.random.default_rng(seed)
+    pattern = cl.pattern_from_desc(desc)
+    c = pattern.get_crop_size()
+    w = 2 * k + 1
+    frame = r.poisson(4.0, size=(h, w)).astype(np.float32)            # the same draw as in FRESH_SRC
+    peaks = [[int(h // 2), int(w // 3)], [int(h // 3), int(2 * w // 3)], [int(h // 4), int(w // 2)], [int(3 * h // 4), int(w // 4)], [int(h // 2), int(3 * w // 4)], [int(2 * h // 3), int(w // 2)]]
+    other = np.random.default_rng(seed + 1).poisson(4.0, size=(h, 2 * k)).astype(np.float32)
+    cl.run_full(pattern, other, peaks, upsample=ups)                  # the even width first
+    here = cl.run_full(pattern, frame, peaks, upsample=ups)
+    arg = json.dumps({'seed': int(seed), 'desc': desc, 'h': int(h), 'w': int(w), 'peaks': peaks, 'ups': ups})
+    out = subprocess.run([sys.executable, '-W', 'ignore', '-c', FRESH_SRC, arg], capture_output=True, text=True, timeout=600)
+    line = [ln for ln in out.stdout.splitlines() if ln.startswith('RESULT ')]
+    if not line:
+        raise core.Broken('fresh interpreter did not answer: ' + out.stderr[-300:])
+    fresh = [np.array(x) for x in json.loads(line[0][7:])]
+    for name, u, v in zip(('centres', 'refineds', 'heights', 'elevations'), here, fresh):
+        if not np.allclose(np.asarray(u, dtype=float), v, rtol=1e-5, atol=1e-5 * (1.0 + float(np.abs(fresh[2]).max())), equal_nan=True):
+            return ('process_frame_full(upsample=%s) on a %dx%d frame after a %dx%d frame was processed in the same interpreter: %s %s, in a fresh interpreter %s'
+                    % (ups, h, w, h, 2 * k, name, np.asarray(u).tolist(), v.tolist()))
+    return None
+
+
 def mk_replay(desc, frame, peaks, method, bc, upsample, fail, cf=None):
     return {'kind': 'input', 'call': 'process_frame_%s' % method,
             'args': {'pattern': desc, 'frame': np.asarray(frame, dtype=np.float64).tolist(), 'peaks': [list(map(int, p)) for p in peaks],
@@ -106,6 +145,23 @@ def replay(body):
         if not ok:
             print('VIOLATION property=C08 replay=(given)')
         return 0 if ok else 1
+    if 'fresh_process' in a:
+        x = a['fresh_process']
+        fail = fresh_process_failure(a['pattern'], x['h'], x['k'], x['upsample'], x['seed'])
+        print(json.dumps({'failure_now': fail}, indent=1))
+        if fail:
+            print('VIOLATION property=C08 replay=(given)')
+            return 1
+        return 0
+    if 'cross_shape' in a:
+        from props import C09 as _c09
+        x = a['cross_shape']
+        fail = _c09.cross_shape_failure(a['pattern'], x['h'], x['k'], x['upsample'], x['seed'])
+        print(json.dumps({'failure_now': fail}, indent=1))
+        if fail:
+            print('VIOLATION property=C08 replay=(given)')
+            return 1
+        return 0
     if 'batch_seed' in a:
         fail = batch_failure(a['batch_seed'], a['method'], a['dtype'], a['upsample'])
         print(json.dumps({'failure_now': fail}, indent=1))
@@ -130,6 +186,16 @@ def run(ctx):
     rng = ctx.rng
     ctx.check_theorems()
     ctx.check_generated(['blocks', 'kcalls', 'klog', 'kblocks', 'crop'])
+
+    # (S0) before anything else has been processed in this interpreter: used vs fresh interpreter
+    for i in range(ctx.n(2, 8)):
+        pattern_, desc_ = cl.rand_pattern(rng, cmax=4, kinds=['Circular', 'RadialGradient', 'BackgroundSubtraction'])
+        h_, k_, ups_, sd_ = int(rng.integers(24, 40)), 14 + i, [True, 10][i % 2], int(rng.integers(0, 2 ** 30))        # small widths (the last column of the half spectrum matters); this stream runs first
+        fail = fresh_process_failure(desc_, h_, k_, ups_, sd_)
+        if fail:
+            ctx.violation('input', 'result depends on frames processed before: ' + fail, {'kind': 'history', 'call': 'process_frame_full in a used vs a fresh interpreter',
+                          'args': {'pattern': desc_, 'fresh_process': {'h': h_, 'k': k_, 'upsample': ups_, 'seed': sd_}}, 'failure': fail})
+            break
 
     # -------- (K1) get_buf_count vs Blocks.buf_count, exhaustive box --------
     box = []
@@ -246,6 +312,17 @@ def run(ctx):
             if found:
                 break
         if found:
+            break
+    # (S) the result of a peak does not depend on which other frames (of other shapes) the process has seen before
+    from props import C09 as _c09
+    for i in range(ctx.n(6, 30)):
+        pattern_, desc_ = cl.rand_pattern(rng, cmax=4)
+        h_, k_, ups_, sd_ = int(rng.integers(20, 40)), 60 + i, [4, True, 10][i % 3], int(rng.integers(0, 2 ** 31))       # widths 120+: used nowhere else in this check
+        fail = _c09.cross_shape_failure(desc_, h_, k_, ups_, sd_)
+        nruns += 4
+        if fail:
+            ctx.violation('input', 'result depends on frames processed before: ' + fail, {'kind': 'history', 'call': 'process_frame_full/fast over frames of several shapes',
+                          'args': {'pattern': desc_, 'cross_shape': {'h': h_, 'k': k_, 'upsample': ups_, 'seed': sd_}}, 'failure': fail})
             break
     # (S) batch entry points beyond the default crop-buffer budget
     for k in range(ctx.n(8, 60)):
